@@ -32,6 +32,10 @@ CHECKS = {
              text="Every distinct client frame of whole connections over TLS/NLA (TLC-drawn configurations, plus a sweep of client name, domain, user, password over empty / 1..64 code points / 2-byte / 3-byte / surrogate pairs / 15-16-17 unit boundary, screen sizes 0..65535, id boundaries, both Client Info variants) and of activation/input runs is decoded by TLC with the strict grammar: TPKT, X.224, MCS PER, BER connect-initial with DomainParameters, GCC CCrq with CS_CORE/CS_SECURITY/CS_NET, Client Info (+extended), share control/data, confirm active with per-type capability sizes, input PDU, TSRequest DER, NTLM NEGOTIATE/AUTHENTICATE length-offset pairs. Any Bad(reason) or panic is a violation.",
              note="Trusted: TLC and my transcription of the protocol documents (cross-checked by TLC against vectors in the repository's tests: accepted, and single-field corruptions rejected). Sealed TSCredentials are parsed under C17.",
              ref="DESIGN.md section 6 C04"),
+ "C02": dict(cat="model_checking", tech="TLA+ spec Rdp.tla (negotiation / TLS part) model-checked by TLC; complete TLC-generated product of configurations x negotiation replies x certificates executed against the reference server over real TLS; trace validation (Trace_Rdp.tla)",
+             text="TLC proves SelectedWasOffered, NoCredBeforeTls, OnlyNegoOnRaw, SilentAfterRefusal and the TlsDone guard (untrusted certificate + checking never yields a session) on the connection model. The full product {Connector nla x check, x224 API masks 0..15} x {response with all 256 low-byte selections + 13 high patterns, failure, echoed request, absent, unknown types} x flag bytes x {trusted, untrusted certificate} (17k runs quick) is replayed; the server logs every raw byte the client writes after the confirm; each run must be a behaviour of Rdp.tla (no action exists for clear-text continuation, for a TLS hello after a selection that was not offered, or for success after a refusal).",
+             note="Trusted: TLC, OpenSSL trust decision with SSL_CERT_FILE = test CA, server-side logging of raw bytes. Refusing an offered-but-unimplemented protocol is allowed.",
+             ref="DESIGN.md section 6 C02"),
 }
 
 NOT_YET = {
